@@ -443,7 +443,7 @@ static void
 double64_peak_update	(SF_PRIVATE *psf, const double *buffer, int count, sf_count_t indx)
 {	int 	chan ;
 	int		k, position ;
-	float	fmaxval ;
+	double	fmaxval ;
 
 	for (chan = 0 ; chan < psf->sf.channels ; chan++)
 	{	fmaxval = fabs (buffer [chan]) ;
